@@ -1279,6 +1279,11 @@ mod child {
     // ---- injectivity: well-formed keys that differ in a field must not share a file ----------
 
     fn inj<K: CacheKey + std::fmt::Display + 'static>(c: &mut Child, tname: &str, keys: Vec<(K, String)>) {
+        inj_layouts(c, tname, keys, &[("flat", 0), ("subdirs", 2)]);
+    }
+
+    /// `layouts`: (variant name, hashed sub-directory levels; 0 = flat)
+    fn inj_layouts<K: CacheKey + std::fmt::Display + 'static>(c: &mut Child, tname: &str, keys: Vec<(K, String)>, layouts: &[(&str, usize)]) {
         let mut seen = BTreeSet::new();
         let keys: Vec<(K, String)> = keys.into_iter().filter(|(_, kid)| seen.insert(kid.clone())).collect();
         // display form and lookup hashes of every kind of typed key (binary and numeric fields included)
@@ -1300,9 +1305,10 @@ mod child {
                 O::Ok(format!("keys={} display_bytes={total} fast_eq_self={self_eq}", keys.len()))
             });
         }
-        for (vname, sub) in [("flat", false), ("subdirs", true)] {
+        for &(vname, levels) in layouts {
             let root = c.root(&format!("inj_{tname}_{vname}"));
-            let cache: DiskCache<K> = disk_cache(&root, sub);
+            let cfg = DiskCacheConfig::new(&root).with_max_files(1_000_000).with_subdirectories(levels > 0, levels);
+            let cache: DiskCache<K> = DiskCache::new(cfg).expect("DiskCache::new on an existing directory");
             let variant = format!("{vname}/{tname}");
             for (k, kid) in &keys {
                 let mut m = Meta::new("DiskCache::put", &variant, &root, k.as_cache_key());
@@ -1384,6 +1390,22 @@ mod child {
             }
         }
         inj(c, "RibbitKey", v);
+
+        // a dense population of keys that share their last path component ("products/<p>/versions" for many products and
+        // regions) in a cache with ONE hashed level (256 buckets): if the place of a file depended on less than the whole
+        // key, dozens of pairs would meet in a bucket
+        let mut v: Vec<(RibbitKey, String)> = Vec::new();
+        let n_products = c.pick(12, 40);
+        let products: Vec<String> = PRODUCTS.iter().map(|p| (*p).to_string()).chain((0..n_products).map(|_| ident(&mut rng, LOWER, 2, 9))).take(n_products).collect();
+        for p in &products {
+            for r in REGIONS {
+                for e in ["versions", "cdns", "bgdl"] {
+                    let ep = format!("products/{p}/{e}");
+                    v.push((RibbitKey::new(ep.clone(), *r), format!("endpoint={ep},region={r},product=None")));
+                }
+            }
+        }
+        inj_layouts(c, "RibbitKey", v, &[("dense-1-level", 1)]);
 
         // ConfigKey
         let mut v: Vec<(ConfigKey, String)> = Vec::new();
